@@ -7,7 +7,7 @@ All strings are opaque tokens (hex text produced by the harness); the model only
   request `val <val> ; <vwrapper> <param>… ; …`
   reply   `<call>… | <k~v>…`  (`_` for an empty list)   resp.  `<val>`
 
-  item    `T<int>` | `C<tok>` | `V<name>=<val>` | `G<k>~<v>`
+  item    `T<int>` | `C<tok>` | `V<name>=<val>[@<vwrapper>[+<param>…]]…` | `G<k>~<v>`
   val     `N` | `S<tok>` | `E<tok>` | `M<unit>:<-|h|x>:<k~v,…|.>:<obs;…|.>`
   obs     `u<dec>` | `f<16 hex>` | `r<16 hex>x<dec>`
   wrapper `B` | `Mo <item>…` | `Mg <item>…` | `mr <item>…` | `mg <item>…` | `D<n> <k~v>…` |
@@ -93,6 +93,25 @@ def showVal : Option VCall → String
     let o := if m.obs.isEmpty then "." else ";".intercalate (m.obs.map showObs)
     s!"M{untok m.unit}:{showFlags m.flags}:{d}:{o}"
 
+def parseVWrapper (ts : List String) : Option VWrapper :=
+  match ts with
+  | ["r"] => some .ref
+  | ["x"] => some .box
+  | ["a"] => some .arc
+  | ["co"] => some .cow
+  | ["cb"] => some .cow
+  | ["o"] => some .optSome
+  | ["on"] => some .optNone
+  | ["fh"] => some (.forceFlag .high)
+  | ["fx"] => some (.forceFlag .noMetric)
+  | ["t0"] => some (.formatted .id)
+  | ["t1"] => some (.formatted .count)
+  | k :: r =>
+    match k.toList with
+    | ['d', n] => if n.isDigit then (r.mapM parsePair).map .withDims else none
+    | _ => none
+  | [] => none
+
 /-- items and sample-group elements of a plain entry -/
 def parseItems (ts : List String) : Option (List Item × Dims) :=
   ts.foldl (fun acc t => do
@@ -101,12 +120,17 @@ def parseItems (ts : List String) : Option (List Item × Dims) :=
     | 'T' :: rest => do let n ← (String.ofList rest).toInt?; pure (items ++ [Item.timestamp n], sg)
     | 'C' :: rest => if rest.isEmpty then none else pure (items ++ [Item.config (rest.map Char.toNat)], sg)
     | 'V' :: rest =>
-      match (String.ofList rest).splitOn "=" with
-      | [n, v] => do
-        if n.isEmpty then none
-        let c ← parseVal v
-        pure (items ++ [Item.value (tok n) (Val.leaf c)], sg)
-      | _ => none
+      -- `V<name>=<val>` optionally followed by `@<vwrapper>` (parameters joined by `+`), innermost first
+      match (String.ofList rest).splitOn "@" with
+      | nv :: vws =>
+        match nv.splitOn "=" with
+        | [n, v] => do
+          if n.isEmpty then none
+          let c ← parseVal v
+          let ws ← vws.mapM fun w => parseVWrapper (w.splitOn "+")
+          pure (items ++ [Item.value (tok n) (applyAllV ws (Val.leaf c))], sg)
+        | _ => none
+      | [] => none
     | 'G' :: rest => do let p ← parsePair (String.ofList rest); pure (items, sg ++ [p])
     | _ => none) (some ([], []))
 
@@ -149,25 +173,6 @@ def parseWrapper (ts : List String) : Option Wrapper :=
     match k.toList with
     | ['D', n] => if n.isDigit then (r.mapM parsePair).map .withDims else none
     | ['W', n] => if n.isDigit then (parseDimsDeny r).map fun (d, deny) => .globalDims d deny else none
-    | _ => none
-  | [] => none
-
-def parseVWrapper (ts : List String) : Option VWrapper :=
-  match ts with
-  | ["r"] => some .ref
-  | ["x"] => some .box
-  | ["a"] => some .arc
-  | ["co"] => some .cow
-  | ["cb"] => some .cow
-  | ["o"] => some .optSome
-  | ["on"] => some .optNone
-  | ["fh"] => some (.forceFlag .high)
-  | ["fx"] => some (.forceFlag .noMetric)
-  | ["t0"] => some (.formatted .id)
-  | ["t1"] => some (.formatted .count)
-  | k :: r =>
-    match k.toList with
-    | ['d', n] => if n.isDigit then (r.mapM parsePair).map .withDims else none
     | _ => none
   | [] => none
 
